@@ -266,6 +266,8 @@ def pc_conditional(df, by, on, group_weights=None):
 
 def varpc_n(n):
     "Variance estimator for Simpson's index"
+    # floating point throughout: N*(N-1)*(N-2) leaves the int64 range for N > 2**21
+    n = np.asarray(n, dtype=float)
     N = np.sum(n)
     p2_hat = np.sum(n * (n - 1)) / (N * (N - 1))
     p3_hat = np.sum(n * (n - 1) * (n - 2)) / (N * (N - 1) * (N - 2))
